@@ -19,6 +19,22 @@
 (* driver marked `void` (older than half the hold's expiry: the server may *)
 (* legitimately have expired it) are not judged.                           *)
 (*                                                                         *)
+(*                                                                         *)
+(* Mode "vt" (virtual time; driver harness/inpkg/server/                   *)
+(* zz_verif_primv_test.go): the calls are issued one at a time against a   *)
+(* server whose clock the driver advances, every event carries the second  *)
+(* `t`, the history its `to` / `ex` (timeout of a blocking call, expiry of *)
+(* a hold).  The monitor then keeps TWO holder tables, aged by the         *)
+(* textbook rule of Primitives (PrimLive / PrimGone):                      *)
+(*   H   holds that are DEFINITELY outstanding (subset of the real ones)   *)
+(*   MH  holds that MAY still exist (superset of the real ones)            *)
+(* and judges, besides the admission rule, what the textbook object does   *)
+(* across time: a release of a definitely outstanding hold is not refused  *)
+(* and gives the unit back, a lapsed hold gives its unit back, nobody      *)
+(* stays blocked while the object is free for all blocked requests,        *)
+(* Event.Wait blocks while clear / returns while set with the Event hold's *)
+(* expiry taken into account.                                              *)
+(*                                                                         *)
 (* Each violated clause prints  "VIOL {json}"  (collected by the check).   *)
 (***************************************************************************)
 EXTENDS Primitives, TLC, Json, SequencesExt
@@ -55,7 +71,16 @@ M0 == [ nv |-> 0, tr |-> 0, name |-> "", kind |-> "", mode |-> "", n |-> 0,
         maxUnits |-> 0, maxReaders |-> 0,     \* coverage only
         \* Event
         inflight |-> 0, setCalls |-> 0, clrMark |-> EmptyFn, clearSince |-> -1, waitMark |-> EmptyFn,
-        wp |-> FALSE ]          \* a Clear call or a Wait with a millisecond timeout has been issued (see StepWaitRet)
+        wp |-> FALSE,           \* a Clear call or a Wait with a millisecond timeout has been issued (see StepWaitRet)
+        \* mode "vt" only
+        to |-> 0, ex |-> 0,     \* timeout of the blocking calls / expiry of the holds of this history (seconds)
+        ht |-> EmptyFn,         \* g -> second of its last acquisition, for the holders in H
+        MH |-> PrimEmpty,       \* every hold that MAY still exist (released with success or PrimGone: removed)
+        mt |-> EmptyFn,         \* g -> second of its last acquisition, for the holders in MH
+        evLast |-> "none", evT |-> 0,     \* Event: the last Set / Clear call that returned ("unknown": it failed) and its second
+        waitSnap |-> EmptyFn,   \* Event: g -> [last, t, tc] the event calls seen when its Wait was called at second tc
+        ng |-> 0,               \* ghost ids handed out (see StepAcqRet)
+        stale |-> {} ]          \* RWLock: processes one of whose READER holds may have lapsed without RUnlock (see Age)
 
 ViolCode(kind) ==
     CASE kind = "lock"  -> "lock-not-exclusive"
@@ -71,7 +96,33 @@ HoldersJson(HT) == SetToSeq({[g |-> hh, rl |-> HT[hh].rl, depth |-> HT[hh].depth
 -----------------------------------------------------------------------------
 StepBegin(mm, e) ==
     [M0 EXCEPT !.nv = mm.nv, !.tr = e.idx, !.name = e.name, !.kind = e.kind, !.mode = e.mode, !.n = e.n,
-               !.clearSince = IF e.kind = "event_clear" THEN 0 ELSE -1]     \* a default-clear event starts clear
+               !.clearSince = IF e.kind = "event_clear" THEN 0 ELSE -1,     \* a default-clear event starts clear
+               !.to = IF e.mode = "vt" THEN e.to ELSE 0, !.ex = IF e.mode = "vt" THEN e.ex ELSE 0]
+
+\* ---- mode "vt": the two holder tables across time
+IsVT(mm) == mm.mode = "vt"
+
+\* ageing by the textbook rule: a hold is no longer DEFINITE once it is not PrimLive, and cannot exist once PrimGone
+Age(mm, t) ==
+    LET liveG == {gg \in DOMAIN mm.H : PrimLive(mm.ht[gg], mm.ex, t)}
+        mayG  == {gg \in DOMAIN mm.MH : ~PrimGone(mm.mt[gg], mm.ex, t)}
+        \* client/rwlock.go remembers the reader LockIds of one RWLock object in a FIFO that expiry does not prune; RUnlock
+        \* names the oldest remembered id.  Once a reader hold of g may have lapsed un-released, what g's RUnlock calls
+        \* answer has no textbook counterpart: not judged (PrimEnc: RWStaleReader)
+        st2   == IF mm.kind = "rw" THEN mm.stale \cup {gg \in (DOMAIN mm.H) \ liveG : mm.H[gg].rl = "r"} ELSE mm.stale
+    IN [mm EXCEPT !.H = Restrict(@, liveG), !.ht = Restrict(@, liveG), !.MH = Restrict(@, mayG), !.mt = Restrict(@, mayG),
+                  !.stale = st2]
+
+\* Semaphore units are anonymous (Release gives back "a" unit - the server takes the oldest): when gg's unit leaves a
+\* table, the ages that stay must bound the real ones from the right side whatever unit the server took:
+\*   H  (definite holds)  keeps the OLDEST ages (they lapse first),  MH (possible holds) keeps the NEWEST ages
+Oldest(f) == CHOOSE x \in DOMAIN f : \A y \in DOMAIN f : f[x] <= f[y]
+Newest(f) == CHOOSE x \in DOMAIN f : \A y \in DOMAIN f : f[x] >= f[y]
+DropAge(kind, f, gg, keepOldest) ==
+    IF gg \notin DOMAIN f THEN f
+    ELSE IF kind # "sem" THEN Restrict(f, (DOMAIN f) \ {gg})
+    ELSE LET o == IF keepOldest THEN Newest(f) ELSE Oldest(f)
+         IN [x \in (DOMAIN f) \ {gg} |-> IF x = o THEN f[gg] ELSE f[x]]
 
 StepAcqCall(mm, e) == [mm EXCEPT !.call = SetFn(@, e.g, [rl |-> e.role, prio |-> e.prio])]
 
@@ -89,15 +140,25 @@ StepAcqRet(mm, e) ==
               ELSE m1
         \* PriorityLock hand-over (seq mode): exact wait set at the last quiescent point
         others == {mm.call[q].prio : q \in (mm.queued \ {e.g}) \cap DOMAIN mm.call}
-        m3 == IF mm.kind = "prio" /\ mm.mode = "seq" /\ e.g \in mm.queued
+        m3 == IF mm.kind = "prio" /\ mm.mode \in {"seq", "vt"} /\ e.g \in mm.queued
               THEN Check(m2, PrimHandOverOK(e.prio, others), "handover-not-highest-priority",
                          [g |-> e.g, prio |-> e.prio, s |-> e.s, waiting |-> SetToSeq(others)])
               ELSE m2
         H2 == PrimAdd(mm.H, e.g, e.role)
         readers == Cardinality({hh \in DOMAIN H2 : H2[hh].rl = "r"})
-    IN [m3 EXCEPT !.H = H2, !.armed = FALSE, !.armedPrios = {}, !.call = DelFn(@, e.g), !.queued = @ \ {e.g},
-                  !.maxUnits = IF PrimUnits(H2) > @ THEN PrimUnits(H2) ELSE @,
-                  !.maxReaders = IF readers > @ THEN readers ELSE @]
+        m4 == [m3 EXCEPT !.H = H2, !.armed = FALSE, !.armedPrios = {}, !.call = DelFn(@, e.g), !.queued = @ \ {e.g},
+                         !.maxUnits = IF PrimUnits(H2) > @ THEN PrimUnits(H2) ELSE @,
+                         !.maxReaders = IF readers > @ THEN readers ELSE @]
+        \* vt: an earlier hold of the same process that may still exist (it is in the second or two in which the server's
+        \* sweep ends it) stays in MH under a ghost id - except for RLock (re-entry) it is ANOTHER hold, possibly in
+        \* another role (RWLock), next to the one granted now
+        ghost == mm.kind # "rlock" /\ e.g \in DOMAIN mm.MH
+        gid   == 1000 + mm.ng
+        MH1   == IF ghost THEN SetFn(PrimDrop(mm.MH, e.g), gid, mm.MH[e.g]) ELSE mm.MH
+        mt1   == IF ghost THEN SetFn(mm.mt, gid, mm.mt[e.g]) ELSE mm.mt
+    IN IF IsVT(mm) THEN [m4 EXCEPT !.ht = SetFn(@, e.g, e.t), !.MH = PrimAdd(MH1, e.g, e.role), !.mt = SetFn(mt1, e.g, e.t),
+                                   !.ng = IF ghost THEN @ + 1 ELSE @]
+       ELSE m4
 
 \* a definite refusal of an acquire: judged only where the statement is explicit - "re-entrant for its holder"
 StepAcqFail(mm, e) ==
@@ -107,24 +168,40 @@ StepAcqFail(mm, e) ==
     IN [m1 EXCEPT !.call = DelFn(@, e.g), !.queued = @ \ {e.g}]
 
 StepRelCall(mm, e) ==
-    IF e.void \/ e.g \notin DOMAIN mm.H THEN mm ELSE
+    IF e.void \/ e.g \notin DOMAIN mm.H
+    THEN \* (vt, Semaphore: a Release by somebody whose own unit is not definite any more may take ANY unit)
+         IF IsVT(mm) /\ mm.kind = "sem" /\ DOMAIN mm.H # {}
+         THEN LET o == Newest(mm.ht) IN [mm EXCEPT !.H = PrimDrop(@, o), !.ht = Restrict(@, (DOMAIN @) \ {o})]
+         ELSE mm
+    ELSE
     LET H2 == PrimSub(mm.H, e.g)
         gone == e.g \notin DOMAIN H2
         arm == mm.kind = "prio" /\ gone /\ e.g \in DOMAIN mm.obs
-    IN [mm EXCEPT !.H = H2, !.relp = @ \cup {e.g},
-                  !.armed = IF arm THEN TRUE ELSE IF gone THEN FALSE ELSE @,
-                  !.armedPrios = IF arm THEN mm.obs[e.g] ELSE IF gone THEN {} ELSE @,
-                  !.obs = IF gone THEN DelFn(@, e.g) ELSE @]
+        m1 == [mm EXCEPT !.H = H2, !.relp = @ \cup {e.g},
+                         !.armed = IF arm THEN TRUE ELSE IF gone THEN FALSE ELSE @,
+                         !.armedPrios = IF arm THEN mm.obs[e.g] ELSE IF gone THEN {} ELSE @,
+                         !.obs = IF gone THEN DelFn(@, e.g) ELSE @]
+    IN IF IsVT(mm) /\ gone THEN [m1 EXCEPT !.ht = DropAge(mm.kind, mm.ht, e.g, TRUE)] ELSE m1
 
 \* "needs as many unlocks as locks": an unlock that belongs to a definite hold is not refused
+\* mode "vt": the textbook object never refuses the release of a hold that is definitely outstanding (every kind),
+\* and an acknowledged release takes the unit out of the holds that may exist
 StepRelRet(mm, e) ==
     LET m1 == IF mm.kind = "rlock" /\ ~e.ok /\ ~e.void /\ e.g \in mm.relp
               THEN Report(mm, "rlock-unlock-refused", [g |-> e.g, res |-> e.res, s |-> e.s])
               ELSE mm
-    IN [m1 EXCEPT !.relp = @ \ {e.g}]
+        m2 == IF IsVT(mm) /\ ~e.ok /\ e.g \in mm.relp /\ e.g \notin mm.stale
+              THEN Report(m1, "release-refused-while-held", [g |-> e.g, res |-> e.res, s |-> e.s, t |-> e.t, ex |-> mm.ex])
+              ELSE m1
+        m3 == IF IsVT(mm) /\ e.ok /\ e.g \in DOMAIN mm.MH
+              THEN LET M2 == PrimSub(mm.MH, e.g) IN
+                   [m2 EXCEPT !.MH = M2, !.mt = IF e.g \in DOMAIN M2 THEN @ ELSE DropAge(mm.kind, mm.mt, e.g, FALSE)]
+              ELSE m2
+    IN [m3 EXCEPT !.relp = @ \ {e.g}]
 
 StepAbandon(mm, e) == [mm EXCEPT !.H = PrimDrop(@, e.g), !.relp = @ \ {e.g}, !.obs = DelFn(@, e.g),
-                                 !.call = DelFn(@, e.g), !.queued = @ \ {e.g}]
+                                 !.call = DelFn(@, e.g), !.queued = @ \ {e.g},
+                                 !.ht = Restrict(@, (DOMAIN @) \ {e.g})]
 
 StepObs(mm, e) ==
     IF e.void \/ e.g \notin DOMAIN mm.H THEN mm
@@ -133,41 +210,73 @@ StepObs(mm, e) ==
 \* every release was acknowledged: the primitive is free again (as many unlocks as locks - not more)
 StepProbe(mm, e) ==
     IF e.void THEN mm
+    ELSE IF IsVT(mm)      \* ... or lapsed: judged against every hold that may still exist
+    THEN Check(mm, e.ok \/ DOMAIN mm.MH # {}, "not-free-after-all-released", [res |-> e.res, s |-> e.s, t |-> e.t])
     ELSE Check(mm, e.ok \/ DOMAIN mm.H # {}, "not-free-after-all-released", [res |-> e.res, s |-> e.s])
 
 \* seq mode: quiescent point; e.prios lists the processes whose call is queued at the server
+\* mode "vt": the permissive halves are judged only while the holder set is known exactly (no hold in the second or
+\* two in which the server's sweep ends it); nobody stays blocked while the object is free for ALL blocked requests
+\* with respect to every hold that may still exist; a Wait is not blocked while the event is definitely set.
 StepQuiet(mm, e) ==
     LET Q == SeqToSet(e.prios) \cap DOMAIN mm.call
         bad == {q \in Q : PrimMustAdmit(mm.kind, q, mm.call[q].rl, mm.H, \E w \in Q \ {q} : mm.call[w].rl = "w")}
-        m1 == IF mm.kind \in PrimLockKinds
+        m1 == IF mm.kind \in PrimLockKinds /\ (IsVT(mm) => mm.MH = mm.H)
               THEN Check(mm, bad = {}, "blocked-although-admissible",
                          [procs |-> SetToSeq(bad), s |-> e.s, holders |-> HoldersJson(mm.H)])
               ELSE mm
-    IN [m1 EXCEPT !.queued = Q]
+        m2 == IF IsVT(mm) /\ mm.kind \in PrimLockKinds
+              THEN Check(m1, ~PrimSomeoneMustBeAdmitted(mm.kind, mm.n, {[g |-> q, rl |-> mm.call[q].rl] : q \in Q}, mm.MH),
+                         "blocked-although-free",
+                         [procs |-> SetToSeq(Q), s |-> e.s, t |-> e.t, ex |-> mm.ex, mayhold |-> HoldersJson(mm.MH)])
+              ELSE m1
+        W  == SeqToSet(e.prios) \cap DOMAIN mm.waitSnap
+        m3 == IF IsVT(mm) /\ mm.kind \notin PrimLockKinds
+              THEN Check(m2, ~(W # {} /\ PrimEvDefSet(mm.kind, mm.evLast, mm.evT, mm.ex, e.t)), "wait-blocked-while-set",
+                         [procs |-> SetToSeq(W), s |-> e.s, t |-> e.t, ex |-> mm.ex, last |-> mm.evLast, lastT |-> mm.evT])
+              ELSE m2
+    IN [m3 EXCEPT !.queued = Q]
 
 -----------------------------------------------------------------------------
 \* Event.  clearSince >= 0: the event has DEFINITELY been clear since that stamp (a Clear returned success,
 \* no Set call overlapped it, and no Set has been called since).
 
+\* mode "vt" (calls one at a time): the event state is what the last returned Set / Clear established, with the expiry
+\* of the hold behind it (Primitives!PrimEvDefSet / PrimEvDefClear); a failed call leaves it unknown
+EvRet(mm, e, which) == IF IsVT(mm) THEN [mm EXCEPT !.evLast = IF e.ok THEN which ELSE "unknown", !.evT = e.t] ELSE mm
+
 StepSetCall(mm, e)   == [mm EXCEPT !.inflight = @ + 1, !.setCalls = @ + 1, !.clearSince = -1]
-StepSetRet(mm, e)    == [mm EXCEPT !.inflight = IF @ > 0 THEN @ - 1 ELSE 0]
+StepSetRet(mm, e)    == EvRet([mm EXCEPT !.inflight = IF @ > 0 THEN @ - 1 ELSE 0], e, "set")
 StepClearCall(mm, e) == [mm EXCEPT !.clrMark = SetFn(@, e.g, IF mm.inflight = 0 THEN mm.setCalls ELSE -1), !.wp = TRUE]
 StepClearRet(mm, e)  ==
-    IF e.ok /\ ~e.void /\ e.g \in DOMAIN mm.clrMark /\ mm.clrMark[e.g] = mm.setCalls /\ mm.inflight = 0 /\ mm.clearSince < 0
-    THEN [mm EXCEPT !.clearSince = e.s] ELSE mm
+    EvRet(IF e.ok /\ ~e.void /\ e.g \in DOMAIN mm.clrMark /\ mm.clrMark[e.g] = mm.setCalls /\ mm.inflight = 0 /\ mm.clearSince < 0
+          THEN [mm EXCEPT !.clearSince = e.s] ELSE mm, e, "clear")
 \* (e.prio of a wait_call is its millisecond timeout, 0 for the long one.)  `trigger` only DESCRIBES a violation, it
 \* plays no part in the verdict: a wake pass on the UNLOCKED key (finding A24, fixed by 23dcb06) is possible only after
 \* some Clear call (= unlock in default-clear mode) or some Wait carrying a millisecond timeout was issued.
-StepWaitCall(mm, e)  == [mm EXCEPT !.waitMark = SetFn(@, e.g, e.s), !.wp = @ \/ e.prio > 0]
+StepWaitCall(mm, e)  ==
+    LET m1 == [mm EXCEPT !.waitMark = SetFn(@, e.g, e.s), !.wp = @ \/ e.prio > 0]
+    IN IF IsVT(mm) THEN [m1 EXCEPT !.waitSnap = SetFn(@, e.g, [last |-> mm.evLast, t |-> mm.evT, tc |-> e.t])] ELSE m1
+\* mode "vt": the clear state of a default-set event is a hold that lapses - a Wait that returned is judged only when
+\* no Set / Clear was called since the Wait was called and the event was definitely clear from the call to the return
 StepWaitRet(mm, e)   ==
-    LET m1 == IF e.ok /\ e.g \in DOMAIN mm.waitMark
+    LET m1 == IF IsVT(mm)
+              THEN IF e.ok /\ e.g \in DOMAIN mm.waitSnap
+                   THEN LET sn == mm.waitSnap[e.g] IN
+                        Check(mm, ~(sn.last = mm.evLast /\ sn.t = mm.evT
+                                    /\ PrimEvDefClear(mm.kind, mm.evLast, mm.evT, mm.ex, sn.tc)
+                                    /\ PrimEvDefClear(mm.kind, mm.evLast, mm.evT, mm.ex, e.t)), "wait-returned-while-clear",
+                              [g |-> e.g, s |-> e.s, t |-> e.t, called |-> sn.tc, last |-> mm.evLast, lastT |-> mm.evT, ex |-> mm.ex,
+                               trigger |-> "none"])
+                   ELSE mm
+              ELSE IF e.ok /\ e.g \in DOMAIN mm.waitMark
               THEN Check(mm, ~(mm.clearSince >= 0 /\ mm.clearSince < mm.waitMark[e.g]), "wait-returned-while-clear",
                          [g |-> e.g, s |-> e.s, called |-> mm.waitMark[e.g], clearSince |-> mm.clearSince,
                           trigger |-> IF mm.wp THEN "wake-pass-while-unlocked-possible" ELSE "none"])
               ELSE mm
-    IN [m1 EXCEPT !.waitMark = DelFn(@, e.g)]
+    IN [m1 EXCEPT !.waitMark = DelFn(@, e.g), !.waitSnap = IF IsVT(mm) THEN DelFn(@, e.g) ELSE @]
 
-Step(mm, e) ==
+Step1(mm, e) ==
     CASE e.e = "begin"      -> StepBegin(mm, e)
       [] e.e = "acq_call"   -> StepAcqCall(mm, e)
       [] e.e = "acq_ret"    -> StepAcqRet(mm, e)
@@ -186,6 +295,9 @@ Step(mm, e) ==
       [] e.e = "wait_call"  -> StepWaitCall(mm, e)
       [] e.e = "wait_ret"   -> StepWaitRet(mm, e)
       [] OTHER              -> mm
+
+\* mode "vt": the holder tables are aged to the second of the event before it is judged
+Step(mm, e) == IF IsVT(mm) /\ e.e \notin {"begin", "end"} THEN Step1(Age(mm, e.t), e) ELSE Step1(mm, e)
 
 Init == l = 1 /\ m = M0
 
